@@ -128,6 +128,12 @@ type shadowMu struct {
 	readers readerSet
 }
 
+// shadowPool is the per-run stand-in of a sync.Pool (see PoolGet).
+type shadowPool struct {
+	items []any
+	_     int // (never zero-sized: its address serves as the race detector's synchronisation variable)
+}
+
 type shadowOnce struct {
 	running bool
 	done    bool
@@ -150,6 +156,7 @@ type Sim struct {
 	mutexes umap[*shadowMu]
 	onces   umap[*shadowOnce]
 	ptrIDs  umap[int]
+	pools   umap[*shadowPool]
 
 	aborting atomic.Bool
 	pcount   int
